@@ -284,12 +284,18 @@ class TAP001(AbstractTAP, discriminator="tap-001"):
         if not self._tap_return_handler(self.current_timestep):
             # Propagate kill chain stage handles simulation failure independently.
             # See _scan_setup_handler for more information.
-            if self.current_kill_chain_stage == MobileMalwareKillChain.PROPAGATE:
+            failed_action = self.history[self.current_timestep].action
+            if self.current_kill_chain_stage == MobileMalwareKillChain.PROPAGATE and failed_action in (
+                "node-nmap-ping-scan",
+                "node-nmap-port-scan",
+                "node-network-service-recon",
+            ):
                 pass
             elif (
                 (self.current_kill_chain_stage == MobileMalwareKillChain.PAYLOAD)
                 and (self.current_stage_progress == KillChainStageProgress.IN_PROGRESS)
                 and (self.payload_settings["continue_on_failed_exfil"])
+                and failed_action == "c2-server-data-exfiltrate"
             ):
                 pass
             else:
